@@ -25,7 +25,11 @@ pub struct Case14 {
     pub tests: Vec<T14>,
 }
 
+/// a command that must be cut is at least this much longer than the limit ..
 const MARGIN_MS: u64 = 600;
+/// .. and a command that must complete is at least this much shorter (start-up of scrut and bash
+/// under load eats into this side only)
+const INSIDE_MARGIN_MS: u64 = 900;
 
 /// effective limit of test i given the elapsed time
 fn effective_limit(c: &Case14, i: usize, elapsed_ms: u64) -> Option<u64> {
@@ -78,11 +82,11 @@ fn case_strategy() -> BoxedStrategy<Case14> {
                 let limit = effective_limit(&c, i, elapsed);
                 let mut allowed: Vec<u64> = vec![];
                 // immediate command (about 50 ms): must be well inside the limit
-                if limit.map(|l| l >= 50 + MARGIN_MS).unwrap_or(true) {
+                if limit.map(|l| l >= 50 + INSIDE_MARGIN_MS).unwrap_or(true) {
                     allowed.push(0);
                 }
                 // 2 s: either clearly inside or clearly cut
-                if limit.map(|l| l >= 2000 + MARGIN_MS || l + MARGIN_MS <= 2000).unwrap_or(true) {
+                if limit.map(|l| l >= 2000 + INSIDE_MARGIN_MS || l + MARGIN_MS <= 2000).unwrap_or(true) {
                     allowed.push(2);
                 }
                 // 30 s only where a limit of at most 5 s cuts it short
@@ -207,10 +211,10 @@ fn check_case(c: &Case14) -> V {
             return V::fail(format!("exit status {:?}, expected {want}\n{}", run.code, describe()));
         }
     }
-    let bound_ms = total_expected_ms + 1500;
+    let bound_ms = total_expected_ms + 2500;
     if run.wall.as_millis() as u64 > bound_ms {
         return V::fail(format!(
-            "scrut ran {:.2}s although the limits in force end the run after {:.2}s (+1.5 s tolerance)\n{}",
+            "scrut ran {:.2}s although the limits in force end the run after {:.2}s (+2.5 s tolerance)\n{}",
             run.wall.as_secs_f64(),
             total_expected_ms as f64 / 1000.0,
             describe()
@@ -223,7 +227,7 @@ pub fn property() -> Property {
     Property {
         id: "C14",
         assumptions: vec![
-            "cases are constructed so that every decisive duration is at least 600 ms away from every limit; wall clock bound = modelled abort time + 1.5 s; at most 8 cases run concurrently",
+            "cases are constructed so that every decisive duration is at least 600 ms away from every limit; wall clock bound = modelled abort time + 2.5 s; commands that must complete stay 900 ms inside their limit; at most 8 cases run concurrently",
             "Cram (single script) mode: only the document limit exists and per-test attribution is coarse",
             "not asserted: that the timed-out command's process is killed (C18 observes the consequence)",
         ],
